@@ -632,4 +632,109 @@ theorem validate_admin_of_need {df : Defects} (hdf : df.groupCreationUnchecked =
           rw [hneedT] at hc
           simpa using hc
 
+/-! ### a room mutation names only groups of the mutated room -/
+
+/-- **`validate_authorisation_mutation` refuses a group id that is not one of the room's** (authorisation_service.rs:
+    `None => match old_node { Some(_) => NotBelongsTo …`): a `sys.Authorisation` entity named by id (an existing row)
+    that the room being mutated does not hold — the group of another room, for instance -/
+theorem validateGroup_foreign {df : Defects} {caller : Key} {d : Int} {room : Room} {g : GroupSpec}
+    (hold : g.isNew = false) (habs : room.getAuth g.gid = none) :
+    validateGroup df caller d room g = .error .notBelongs := by
+  unfold validateGroup
+  simp [habs, hold]
+
+/-- every group an accepted mutation names as an existing one is a group of the room, or was created earlier in the
+    same mutation -/
+theorem validateGroups_belongs {df : Defects} {caller : Key} {d : Int} {gs : List GroupSpec} {r r' : Room}
+    {need need' : Bool} (h : validateGroups df caller d r need gs = .ok (r', need')) :
+    ∀ g ∈ gs, g.isNew = false → (r.getAuth g.gid).isSome = true ∨ ∃ g' ∈ gs, g'.isNew = true ∧ g'.gid = g.gid := by
+  induction gs generalizing r need with
+  | nil => intro g hg; cases hg
+  | cons g0 t ih =>
+    simp only [validateGroups] at h
+    split at h
+    · cases h
+    · rename_i r1 n1 h1
+      intro g hg hold
+      rcases List.mem_cons.mp hg with rfl | hin
+      · left
+        cases hga : r.getAuth g.gid with
+        | some a => rfl
+        | none => rw [validateGroup_foreign hold hga] at h1; cases h1
+      · rcases ih h g hin hold with hs | ⟨g', hg', hn, he⟩
+        · obtain ⟨a0, a', base, hc, _, _, rfl⟩ := validateGroup_ok h1
+          rw [getAuth_setAuth] at hs
+          rcases hc with ⟨_, hbase⟩ | ⟨hnone, ha0, hbase⟩
+          · left
+            subst hbase
+            cases hb : base.getAuth g.gid with
+            | some _ => rfl
+            | none => rw [hb] at hs; cases hs
+          · subst hbase
+            cases hb : r.getAuth g.gid with
+            | some _ => exact Or.inl rfl
+            | none =>
+              right
+              refine ⟨g0, List.mem_cons_self .., ?_, ?_⟩
+              · cases hn0 : g0.isNew with
+                | true => rfl
+                | false => rw [validateGroup_foreign hn0 hnone] at h1; cases h1
+              · -- the group found in the extended room is the one just created
+                have : ({ r with auths := r.auths ++ [a0] } : Room).getAuth g.gid =
+                    (if a0.id = g.gid then some a0 else none) := by
+                  unfold Room.getAuth at hb ⊢
+                  simp only [List.find?_append, hb, Option.none_or]
+                  by_cases e : a0.id = g.gid <;> simp [List.find?, e]
+                rw [this] at hs
+                by_cases e : a0.id = g.gid
+                · rw [ha0] at e; exact e
+                · simp [e] at hs
+        · exact Or.inr ⟨g', List.mem_cons_of_mem _ hg', hn, he⟩
+
+/-- **a mutation of one room leaves every other room as it is, in storage and in memory** -/
+theorem mutate_other_rooms {df : Defects} {s s' : Site} (hi : SiteInv s) {caller : Key} {n : Nat} {m : MutSpec}
+    (h : s.mutate df caller n m = .ok s') {rid : Id} (hne : rid ≠ m.rid) :
+    s'.getStored rid = s.getStored rid ∧ s'.getMem rid = s.getMem rid := by
+  unfold Site.mutate at h
+  split at h
+  · cases h
+  · simp only at h
+    split at h
+    · cases h
+    · split at h
+      · cases h
+      · rename_i room hv
+        cases h
+        have hinv : if m.isNew then (if m.isNew then none else s.getStored m.rid) = none
+            else ∃ r rr, s.getMem m.rid = some r ∧ (if m.isNew then none else s.getStored m.rid) = some rr ∧
+              AgreesOrd r rr ∧ r.WF ∧ r.id = rr.rid := by
+          by_cases hnew : m.isNew
+          · simp [hnew]
+          · simp only [hnew, Bool.false_eq_true, if_false]
+            cases hm : s.getMem m.rid with
+            | none =>
+              exfalso
+              unfold validate at hv
+              simp only [hnew, Bool.false_eq_true, if_false, hm] at hv
+              cases hv
+            | some r =>
+              obtain ⟨rr, hs, ha, hw⟩ := hi.agree _ _ hm
+              exact ⟨r, rr, rfl, hs, ha, hw, (getMem_some hm).trans (getStored_some hs).symm⟩
+        have hrid : (storeMutation caller n (if m.isNew then none else s.getStored m.rid) m).rid = room.id :=
+          (validate_agrees (n := n) hinv hv).2.2.symm
+        have hroomid : room.id = m.rid := by
+          rw [← hrid]
+          by_cases hnew : m.isNew
+          · simp [hnew, storeMutation]
+          · simp only [hnew, Bool.false_eq_true, if_false]
+            cases hst : s.getStored m.rid with
+            | none => simp [storeMutation]
+            | some rr => simp only [storeMutation]; exact getStored_some hst
+        have h1 : ¬ rid = room.id := by rw [hroomid]; exact hne
+        have h2 : ¬ rid = (storeMutation caller n (if m.isNew then none else s.getStored m.rid) m).rid := by
+          rw [hrid]; exact h1
+        constructor
+        · rw [getStored_noteInserted, getStored_setMem, getStored_setStored]; simp only [h2, if_false]
+        · rw [getMem_noteInserted, getMem_setMem, getMem_setStored]; simp only [h1, if_false]
+
 end Discret.RoomBuild
